@@ -33,6 +33,10 @@ class Module:
     def label_sig(self, label, detail):
         return label
 
+    def replay_module(self, first_line):
+        """which trace specification validates a replay file (None = the module's own)"""
+        return None
+
     def rule(self):
         return ""
 
@@ -75,7 +79,8 @@ def run(mod, prop, tier, replay=None, dev=False):
         mc_names = collections.OrderedDict()
         traces = []
         if replay:
-            traces.append(("replay", replay))
+            first = open(replay).readline()
+            traces.append(("replay", replay, mod.replay_module(first)))
         else:
             cfgs = mod.mc_configs(prop, tier, sd)
             log("[%s] TLC: %d model-checking configurations of %s" % (prop, len(cfgs), mod.name))
@@ -92,16 +97,17 @@ def run(mod, prop, tier, replay=None, dev=False):
             log("[%s] recording %d sessions of the real code" % (prop, len(recs)))
 
             def rec_one(r):
-                name, args = r
+                name, args = r[0], r[1]
                 out = sc.path("trace-%s.ndjson" % name)
                 vlib.run_driver(exe, list(args) + ["-out", out], timeout=3000)
-                return name, out
+                return name, out, (r[2] if len(r) > 2 else None)   # optional: another trace specification
             traces = vlib.pmap(rec_one, recs, workers=4)
         bad_all = []
         tstats = collections.Counter()
         nlines = 0
         all_lines = {}
-        for tname, tr in traces:
+        for tname, tr, tmod in traces:
+            tmod = tmod or mod.name
             lines = open(tr).read().splitlines()
             all_lines[tname] = lines
             shards = vlib.split_file(tr, 8, sc.sub("shards-" + tname), is_begin=lambda l: mod.begin_marker in l)
@@ -112,7 +118,7 @@ def run(mod, prop, tier, replay=None, dev=False):
                 pos += sum(1 for _ in open(sh))
 
             def val(sh):
-                return vlib.validate_trace(sh + ".tlc", mod.name, sh, java_opts="-Xmx3g -XX:ParallelGCThreads=2",
+                return vlib.validate_trace(sh + ".tlc", tmod, sh, java_opts="-Xmx3g -XX:ParallelGCThreads=2",
                                            inv_labels=mod.inv_labels)
             got = 0
             for (stats, bad, n), off in zip(vlib.pmap(val, shards, workers=6), offs):
